@@ -3,7 +3,16 @@ A long interleaved history of decode / run calls on shared decoder, code and err
 in this process; the same operations are re-executed (a) in a fresh interpreter with another PYTHONHASHSEED,
 fresh objects and reversed order, (b) a sample each alone in its own interpreter.  Any difference is a
 history / process dependence.  Also: caller arrays and code matrices are never modified, the recovery does not
-depend on the `error` context, and a longer seeded run extends a shorter one.
+depend on the `error` context.
+Stopping limits (harness/c06_limits.py): one reference run observed run by run; the extracted run loop folded over its
+per-run data decides the aggregate for every KIND of limit pair (max_failures alone, max_runs alone, both, looser,
+tighter, neither); the implementation with the same seed must agree, generate the same error stream, and return
+identical data whenever the same number of runs was performed.
+Process-global generators (`random`, numpy.random): only PlanarYDecoder, decoders constructed with stp and
+FileErrorModel are random by documented design (their toss is pinned); for every other component the global generators
+are put in a different state before every operation, in every process and fork, so a hidden use of them shows up as a
+differing result (reported as not-reproducible-fresh with the operation alone in pristine forks), and operations seen to
+advance a global generator are re-run alone under several states.
 harness/c06_extra.py adds (every scenario in a pristine fork of a fresh interpreter): groups of RELATED syndromes
 (same defects in one sector, other sector varied) decoded in every rotation and in long shuffled histories for every
 stateful decoder family; a matrix "any component family used before" x "tie-prone targets of every family"
@@ -13,6 +22,7 @@ import json
 import os
 import subprocess
 import sys
+import time
 from concurrent.futures import ThreadPoolExecutor
 
 import numpy as np
@@ -20,6 +30,7 @@ import numpy as np
 from harness.common import REPO, VERIF
 from harness import c06_worker as W
 from harness import c06_extra as X
+from harness import c06_limits as L
 
 PAIRS = [
     # (code exprs, decoder exprs, error-model exprs, Y-only noise?)
@@ -48,10 +59,12 @@ FTP = [(['RotatedPlanarCode(3,3)', 'RotatedPlanarCode(3,4)'], ['RotatedPlanarSMW
         ['BitPhaseFlipErrorModel()', 'DepolarizingErrorModel()'])]
 
 
-def worker(ops, hashseed, timeout=1500):
+def worker(ops, hashseed, timeout=1500, salt=None):
+    """fresh interpreter: other hash seed, other sequence of global `random` / numpy.random states (C06_GSALT)"""
     env = dict(os.environ)
     env['PYTHONPATH'] = os.path.join(REPO, 'src') + ':' + VERIF
     env['PYTHONHASHSEED'] = str(hashseed)
+    env['C06_GSALT'] = str(hashseed * 13 + 5 if salt is None else salt)
     p = subprocess.run([sys.executable, '-W', 'ignore', '-m', 'harness.c06_worker'], input=json.dumps(ops),
                        capture_output=True, text=True, env=env, timeout=timeout, cwd=VERIF)
     lines = [l for l in p.stdout.split('\n') if l.startswith('{')]
@@ -74,10 +87,16 @@ def run(ctx):
                 'Plus, each scenario in a pristine fork: related-syndrome groups (shared defects in one sector / shared '
                 'X-, Z- or Y-part, 3-5 variants of the other part, every rotation + long shuffled histories with repeats; '
                 'nontrivial = decode that is not the first of its scenario), and prior-family x tie-prone-target matrix '
-                '(nontrivial = target executed after a prior activity); reference = same operation first in a pristine fork')
+                '(nontrivial = target executed after a prior activity); reference = same operation first in a pristine fork, '
+                'repeated 3 times in that fork; every operation of a component not documented as random runs under another '
+                'state of the global `random` / numpy.random generators. Stopping limits: reference run max_runs=M recorded '
+                'run by run, ~10 limit pairs of every kind per configuration decided by the extracted run loop (engine c04) '
+                '(nontrivial = reference run has a failure and the pair is not the reference pair)')
     ctx.props_obligations()
     ns = W.namespace()
     shared = {}
+    W.set_salt(rng.randrange(1, 2 ** 30))      # this process: its own sequence of global-generator states
+    flagged = []                               # operations of non-documented components that advanced a global generator
 
     def get(expr):
         # reuse a shared object most of the time; sometimes build a fresh (equal) one
@@ -135,6 +154,8 @@ def run(ctx):
             state_changers.append((op, {k2: [gstate[k2], g2[k2]] for k2 in g2 if g2[k2] != gstate[k2]}))
             gstate = g2
         here.append(r)
+        if 'grng' in r:
+            flagged.append((op, 0, r['grng']))
         ctx.count(json.dumps(op, sort_keys=True), hit, op['op'] + ('-ftp' if op.get('T') else ''),
                   dict(op, result=r['result'][:60]) if len(ctx.samples) < 5 else None)
         if r['mutated']:
@@ -149,10 +170,26 @@ def run(ctx):
     bad = [i for i in range(nops) if here[i]['result'] != rev[i]['result']]
     for i in bad[:20]:
         # shrink: is the difference reproducible with the operation alone in a third interpreter?
-        alone = worker([ops[i]], hashseed=7)[0]
+        g0, g1, g2 = X.GSEEDS[:3]
+        settings = [(7, g0), (7, g0), (7, g1), (7, g2), (9, g0)]      # (PYTHONHASHSEED, state of the global generators)
+        with ThreadPoolExecutor(max_workers=5) as ex:
+            alone = list(ex.map(lambda hg: worker([dict(ops[i], gseed=hg[1])], hashseed=hg[0])[0], settings))
+        ra = [a['result'] for a in alone]
+        if len(set(ra)) > 1:
+            # not a matter of history: alone in fresh interpreters the operation is not a function of its arguments
+            # (documented random components: their toss is pinned by c06_worker.ambient, so they do not get here for it)
+            why = ('nothing: identical settings give different results' if ra[0] != ra[1] else
+                   'the state of the process-global generators random / numpy.random' if len(set(ra[:4])) > 1 else 'PYTHONHASHSEED')
+            ctx.violation('not-reproducible-fresh', 'the same operation executed alone in fresh interpreters gives different results '
+                          'although the component is not documented as random; varies with: ' + why,
+                          {'op': ops[i], 'gseeds': [g for _, g in settings], 'hashseeds': [h for h, _ in settings],
+                           'results_alone': [r[:300] for r in ra], 'varies_with': why,
+                           'global_generators_consumed': [a.get('grng') for a in alone],
+                           'note': 'before the operation: random.seed(gseed); numpy.random.seed(gseed)'})
+            continue
         ctx.violation('history-dependence', 'result depends on the history / process (shared objects vs fresh interpreter)',
                       {'op': ops[i], 'index_in_history': i, 'in_history': here[i]['result'][:300],
-                       'fresh_reversed': rev[i]['result'][:300], 'alone': alone['result'][:300],
+                       'fresh_reversed': rev[i]['result'][:300], 'alone': alone[0]['result'][:300],
                        'preceding_ops': ops[max(0, i - 5):i]})
     ctx.extra['ops_compared_fresh_interpreter'] = nops
 
@@ -177,6 +214,7 @@ def run(ctx):
         base = dict(op)
         base.pop('ctx_error', None)
         n2 = len(op['error'])
+        base['gseed'] = rng.randrange(2 ** 32)     # same state of the global generators: only the context differs
         other = dict(base, ctx_error=W.bitstr(np.array([rng.randint(0, 1) for _ in range(n2)])))
         r1, r2 = W.execute(base, get), W.execute(other, get)
         ctx.count(('ctx', json.dumps(base, sort_keys=True)), True, 'context-independence')
@@ -184,81 +222,36 @@ def run(ctx):
             ctx.violation('context-dependence', 'recovery depends on the error passed as context',
                           {'op': base, 'without': r1['result'], 'with_other_error': r2['result']})
 
-    # ---- a longer seeded run extends a shorter one (recording error model) ----
-    from qecsim import app
-    from qecsim.model import ErrorModel
-
-    class Rec(ErrorModel):
-        def __init__(self, inner):
-            self.inner, self.log = inner, []
-
-        def generate(self, code, probability, rng=None):
-            e = self.inner.generate(code, probability, rng)
-            self.log.append(W.bitstr(e))
-            return e
-
-        def probability_distribution(self, probability):
-            return self.inner.probability_distribution(probability)
-
-        @property
-        def label(self):
-            return self.inner.label
-    for _ in range(ctx.pick(40, 300)):
-        if rng.random() < 0.35:
-            codes, decs, ems = rng.choice(FTP)
-            T = rng.randint(1, 3)
-        else:
-            codes, decs, ems, yonly = rng.choice([p for p in PAIRS if 'MPS' not in p[1][0] or True])
-            T = None
-        code, dec, em = rng.choice(codes), rng.choice(decs), rng.choice(ems)
-        if 'MPSDecoder()' in dec or 'None' in dec:
-            dec = decs[0]
-        seed = rng.randint(0, 99)
-        p = rng.choice([0.05, 0.15, 0.4])
-        a, b = sorted(rng.sample(range(1, 9), 2))
-        f1, f2 = rng.choice([(None, None), (1, 2), (1, None), (2, 3)])
-        logs = []
-        datas = []
-        import random as _random
-        for (mr, mf) in ((a, f1), (b, f2)):
-            _random.seed(20260930)      # the Y decoder's documented coin toss between exactly tied cosets
-            rec = Rec(get(em))
-            if T:
-                d = app.run_ftp(get(code), T, rec, get(dec), p, rng.choice([None, 0.1]) if False else None,
-                                max_runs=mr, max_failures=mf, random_seed=seed)
-            else:
-                d = app.run(get(code), rec, get(dec), p, max_runs=mr, max_failures=mf, random_seed=seed)
-            logs.append(rec.log)
-            datas.append(d)
-        ctx.count(('prefix', code, dec, em, seed, a, b, f1, f2, T), True, 'prefix-extension',
-                  {'code': code, 'decoder': dec, 'seed': seed, 'limits': [[a, f1], [b, f2]], 'generated': [len(l) for l in logs]}
-                  if len(ctx.samples) < 6 else None)
-        rep = {'code': code, 'decoder': dec, 'error_model': em, 'seed': seed, 'p': p, 'T': T, 'limits': [[a, f1], [b, f2]],
-               'n_run': [d['n_run'] for d in datas]}
-        short, long_ = (logs[0], logs[1]) if len(logs[0]) <= len(logs[1]) else (logs[1], logs[0])
-        if long_[:len(short)] != short:
-            ctx.violation('stream-depends-on-limits', 'seeded error stream depends on the stopping limits', rep)
-        if datas[0]['n_run'] > datas[1]['n_run']:
-            ctx.violation('longer-run-shorter', 'larger limits gave fewer runs', rep)
-        # repeating the very same run gives identical data
-        rec = Rec(get(em))
-        _random.seed(20260930)
-        kw = dict(max_runs=a, max_failures=f1, random_seed=seed)
-        d = app.run_ftp(get(code), T, rec, get(dec), p, None, **kw) if T else app.run(get(code), rec, get(dec), p, **kw)
-        if {k: v for k, v in d.items() if k != 'wall_time'} != {k: v for k, v in datas[0].items() if k != 'wall_time'}:
-            ctx.violation('not-reproducible', 'repeating a seeded run in the same process gives different data', rep)
+    # ---- stopping limits: one observed reference run, every kind of limit pair decided by the extracted run loop ----
+    t0 = time.time()
+    L.limits_block(ctx, get, nconf=ctx.pick(40, 240), M=ctx.pick(10, 16))
+    ctx.extra['limits_block_seconds'] = round(time.time() - t0, 1)
 
     # ---- related syndromes after one another; prior component x tie-prone target matrix (pristine forks) ----
     k = ctx.pick(1, 4)
     state_changers += X.related_block(ctx, {'planar': 500 * k, 'planar-y': 40 * k, 'toric': 100 * k, 'rotatedplanar': 100 * k,
                                             'rotatedtoric': 60 * k, 'color': 24 * k})
-    X.matrix_block(ctx, extra_priors=state_changers)
+    X.matrix_block(ctx, extra_priors=state_changers, flagged_elsewhere=flagged + X.RELATED_FLAGGED)
 
 
 def replay(path):
     d = json.load(open(path))
     print(json.dumps(d, indent=1, default=str))
     rp = d.get('replay', {})
+    if isinstance(rp, dict) and 'error_model' in rp and ('limits' in rp or 'limits_a' in rp):
+        import logging
+        logging.getLogger('qecsim').setLevel(logging.ERROR)
+        return L.replay(rp)
+    if isinstance(rp, dict) and 'gseeds' in rp and ('target' in rp or 'op' in rp):
+        # re-execute the operation alone, first thing in pristine forks, once per state of the global generators
+        t = rp.get('target') or rp['op']
+        if 'hashseeds' in rp:
+            out = [worker([dict(t, gseed=g)], hashseed=h)[0]['result'] for h, g in zip(rp['hashseeds'], rp['gseeds'])]
+        else:
+            out = [r[0]['result'] for r in X.serve([[dict(t, gseed=g)] for g in rp['gseeds']], hashseed=5)]
+        for j, (g, o) in enumerate(zip(rp['gseeds'], out)):
+            print('%sgseed %-8d: %s' % ('PYTHONHASHSEED %d ' % rp['hashseeds'][j] if 'hashseeds' in rp else '', g, o[:400]))
+        return 1 if len(set(out)) > 1 else 0
     if isinstance(rp, dict) and 'target' in rp and 'history' in rp:
         # re-execute: target alone vs target after the history, each in a pristine fork
         res = X.serve([[rp['target']], list(rp['history']) + [rp['target']]], hashseed=5)
